@@ -358,6 +358,20 @@ func init() {
 				}
 			}
 		}
+		// long lists: more pairs than fit one packet (253) or one doubling of a slice (256, 512, 1024), followed by
+		// numbers that fall into the window of the pair opened just before, of the first pair and of a middle one
+		for _, k := range []int{252, 253, 254, 255, 256, 257, 511, 512, 513, 1024, 1025} {
+			for _, back := range []int{1, 2, k / 2, k} {
+				for _, d := range []int{3, 16} {
+					seqs := make([]uint16, 0, k+2)
+					for j := 0; j < k; j++ {
+						seqs = append(seqs, uint16(j*50))
+					}
+					seqs = append(seqs, uint16((k-back)*50+d))
+					scriptNack(s, seqs)
+				}
+			}
+		}
 		for i := 0; i < n; i++ {
 			if i%6 == 5 {
 				// a progression with an arbitrary stride
